@@ -1,3 +1,6 @@
--- This module serves as the root of the `ColaVerif` library.
--- Import modules here that should be built as part of the library.
-import ColaVerif.Basic
+-- Root of the `ColaVerif` library: everything `lake build` (MANIFEST.setup_cmd) compiles.
+import ColaVerif.Basic.GInt
+import ColaVerif.Model.Matmat
+import ColaVerif.Model.Wf
+import ColaVerif.Model.Bound
+import ColaVerif.Lemmas.BlockDiag
